@@ -182,7 +182,7 @@ def toyHash (b : Bytes) : Name := List.replicate 32 (hexDigit (b.length % 16))
 
 def exBody : Bytes := [1, 2, 3]
 def exH : Name := toyHash exBody
-def exW : WBIn := ⟨exH, ['4', '2'], [[1], [2, 3]], .eof, .none, 7⟩
+def exW : WBIn := ⟨exH, ['4', '2'], [[1], [2, 3]], .eof, .none, 7, true⟩
 def exCorrupt : FS := FS.empty.set (blockPath exH) ⟨[9, 9], 0⟩
 
 -- a real block name is visible, the matching temp name is not
@@ -191,9 +191,9 @@ example : isBlockName exH = true ∧ isBlockName (tmpName exH ['4', '2']) = fals
 -- hypotheses of C02_crash_atomic hold for a two-chunk body; killed before the rename the corrupt
 -- old copy is still there (and the temp file holds the whole body), after it the body is
 example : WBValid exBody exW.chunks exW.rend := ⟨by decide, fun _ => by decide⟩
-example : (run exCorrupt ((writeBlockEvs exW).1.take 7)).get (blockPath exH) = some ⟨[9, 9], 0⟩ ∧
-    (run exCorrupt ((writeBlockEvs exW).1.take 7)).get (tmpPath exH ['4', '2']) = some ⟨exBody, 7⟩ := by decide
-example : (run exCorrupt ((writeBlockEvs exW).1.take 8)).get (blockPath exH) = some ⟨exBody, 7⟩ := by decide
+example : (run exCorrupt ((writeBlockEvs exW).1.take 10)).get (blockPath exH) = some ⟨[9, 9], 0⟩ ∧
+    (run exCorrupt ((writeBlockEvs exW).1.take 10)).get (tmpPath exH ['4', '2']) = some ⟨exBody, 7⟩ := by decide
+example : (run exCorrupt ((writeBlockEvs exW).1.take 11)).get (blockPath exH) = some ⟨exBody, 7⟩ := by decide
 -- a reader error after the first chunk: every prefix keeps the old copy, the temp file is removed
 example : (run exCorrupt (writeBlockEvs { exW with chunks := [[1]], rend := .err }).1).files
     = [(blockPath exH, ⟨[9, 9], 0⟩)] := by decide
@@ -202,7 +202,7 @@ example : (run exCorrupt (writeBlockEvs { exW with chunks := [[1]], rend := .err
 -- is published. The hypothesis `sfx ≠` is needed: with one shared temp name (createTemp truncates)
 -- the same schedule publishes a block that lacks A's first chunk.
 def exWB : WBIn := { exW with sfx := ['4', '3'], chunks := [], rend := .err }
-def exSched : List Bool := [true, true, true, true, false, false, false, true, true, true, true]
+def exSched : List Bool := [true, true, true, true, false, false, false, true, true, true, true, true, true, true]
 example : (run FS.empty (interleave exSched (writeBlockEvs exW).1 (writeBlockEvs exWB).1)).get (blockPath exH)
     = some ⟨exBody, 7⟩ := by decide
 example : (run FS.empty (interleave exSched (writeBlockEvs exW).1
